@@ -28,6 +28,9 @@ pub enum Pop {
     SeqLong,
     /// Wide key universes (more entries than one eviction/purge batch handles).
     SeqWide,
+    /// seq-mixed histories with extreme weights (2^31, u32::MAX) and capacities (2^32 .. u64::MAX):
+    /// the arithmetic of the weight accounting (C08 overflow, C04, C10).
+    SeqHuge,
 }
 
 impl Pop {
@@ -41,6 +44,7 @@ impl Pop {
             "pair" => Pop::Pair,
             "seq-long" => Pop::SeqLong,
             "seq-wide" => Pop::SeqWide,
+            "seq-huge" => Pop::SeqHuge,
             _ => return None,
         })
     }
@@ -54,6 +58,7 @@ impl Pop {
             Pop::Pair => "pair",
             Pop::SeqLong => "seq-long",
             Pop::SeqWide => "seq-wide",
+            Pop::SeqHuge => "seq-huge",
         }
     }
     pub fn stream(&self) -> u64 {
@@ -66,6 +71,7 @@ impl Pop {
             Pop::Pair => 6,
             Pop::SeqLong => 7,
             Pop::SeqWide => 8,
+            Pop::SeqHuge => 9,
         }
     }
 }
@@ -371,6 +377,34 @@ fn random_mix(rng: &mut Prng, pop: Pop, cfg: &Config) -> [u32; N_KINDS] {
 }
 
 pub fn generate(pop: Pop, seed: u64, run: u64) -> Trace {
+    if pop == Pop::SeqHuge {
+        // a seq-mixed history (of another seed) whose weights and capacity are scaled up
+        let mut t = generate(Pop::SeqMixed, mix(seed, pop.stream(), 0), run);
+        let mut rng = Prng::new(mix(seed, pop.stream() + 100, run));
+        t.config.weigher = true;
+        t.config.cap = *rng.pick(&[
+            None,
+            Some(u64::MAX),
+            Some(u64::MAX - 1),
+            Some(1u64 << 32),
+            Some((1u64 << 33) + 1),
+            Some(u32::MAX as u64),
+            Some(3 * (u32::MAX as u64)),
+        ]);
+        let table: [u32; 5] = [0, 1, 1 << 31, u32::MAX - 1, u32::MAX];
+        for th in t.threads.iter_mut() {
+            for o in th.iter_mut() {
+                if let Op::Insert { w, .. } = &mut o.op {
+                    *w = if (*w as usize) < table.len() { table[*w as usize] } else { u32::MAX };
+                }
+            }
+        }
+        if let Some(o) = t.origin.as_mut() {
+            o.population = "seq-huge".to_string();
+            o.seed = seed;
+        }
+        return t;
+    }
     let sub = mix(seed, pop.stream(), run);
     let mut rng = Prng::new(sub);
     let cfg = gen_config(&mut rng, pop);
